@@ -8,6 +8,9 @@
 //! flow works over them, whether start-up ended with an error.
 
 use std::collections::BTreeMap;
+use std::net::IpAddr;
+use std::net::Ipv4Addr;
+use std::net::SocketAddr;
 use std::sync::Arc;
 use std::sync::Mutex;
 use std::time::Duration;
@@ -278,6 +281,24 @@ pub fn all_cases() -> Vec<Case> {
             canary_udp: true,
         });
     }
+    // F. key lists "iPSK1:...:iPSKn:uPSK" of the Shadowsocks 2022 AES ciphers: the identity headers the client puts on the
+    //    wire (stream and datagram) must be the chain the list spells, in that order
+    for cipher in ["2022-blake3-aes-128-gcm", "2022-blake3-aes-256-gcm"] {
+        for n_keys in [2usize, 3, 4] {
+            let keys: Vec<String> = (0..n_keys).map(|_| b64(&g.bytes(key_len(cipher)))).collect();
+            let pw = keys.join(":");
+            v.push(Case {
+                class: "key-list".into(),
+                label: format!("{cipher}/{n_keys}-keys"),
+                server_json: String::new(),
+                client_json: client_json("shadowsocks", cipher, Some("tcp_and_udp"), &pw, false),
+                expect: Some((false, false, true, true)),
+                failing_side: String::new(),
+                canary_tcp: false,
+                canary_udp: false,
+            });
+        }
+    }
     // a missing cipher on a Shadowsocks entry is no cipher at all
     {
         let pw = key_for(&mut g, "aes-256-gcm");
@@ -360,8 +381,119 @@ async fn udp_canary() -> Result<(), String> {
     Err(format!("not served within 30 simulated seconds (target got {} of 2 datagrams, application got {} of 2 replies)", o.target_recv[0].len(), o.app_recv[0].len()))
 }
 
+/// class "key-list": the real client against a capturing peer; what it sends is compared with the chain of identity headers
+/// the reference computes from the same key list
+fn execute_key_list(plan: &Plan, case: &Case) -> Outcome {
+    use base64ct::Encoding;
+    let cj: serde_json::Value = serde_json::from_str(&case.client_json).unwrap();
+    let cipher = cj["servers"][0]["cipher"].as_str().unwrap().to_owned();
+    let keys: Vec<Vec<u8>> = cj["servers"][0]["password"].as_str().unwrap().split(':').map(|k| base64ct::Base64::decode_vec(k).unwrap()).collect();
+    let n = key_len(&cipher);
+    let out = rt::run_sim(plan.seed, plan.net_seed, plan.knobs.to_knobs(), || async {
+        let mut findings: Vec<(String, String)> = Vec::new();
+        let Ok(listener) = octo_squirrel::verif::net::TcpListener::bind(server_addr()).await else { return (Some("capture bind".to_owned()), findings) };
+        let Ok(usock) = octo_squirrel::verif::net::UdpSocket::bind(server_addr()).await else { return (Some("capture udp bind".to_owned()), findings) };
+        let client = start_client_json(rt::NODE_CLIENT, case.client_json.clone());
+        tokio::task::yield_now().await;
+        if !settle(|| tcp_listening(CLIENT_PORT) && udp_bound(CLIENT_PORT)).await {
+            return (Some(format!("client did not come up (finished={})", client.is_finished())), findings);
+        }
+        // stream
+        let mut g = Gen::new(7, 7);
+        let mut fl = gen_flow(&mut g, 0, LocalHs::Socks5V4, Ending::None, 100);
+        fl.up = vec![Op::Write(40)];
+        fl.down = vec![];
+        fl.start_ms = 0;
+        let obs = Arc::new(Mutex::new(FlowObs::default()));
+        let _a = spawn_scoped(run_app(0, fl, obs, true));
+        let mut first = Vec::new();
+        if let Ok(Ok((mut s, _))) = tokio::time::timeout(Duration::from_secs(5), listener.accept()).await {
+            use tokio::io::AsyncReadExt;
+            let mut buf = vec![0u8; 8192];
+            while first.len() < n + 16 * (keys.len() - 1) + 27 {
+                match tokio::time::timeout(Duration::from_secs(2), s.read(&mut buf)).await {
+                    Ok(Ok(k)) if k > 0 => first.extend_from_slice(&buf[..k]),
+                    _ => break,
+                }
+            }
+        }
+        let eih_len = 16 * (keys.len() - 1);
+        if first.len() < n + eih_len + 27 {
+            findings.push(("no-request".into(), format!("the client sent {} bytes, a request with {} identity headers needs {}", first.len(), keys.len() - 1, n + eih_len + 27)));
+        } else {
+            let salt = &first[..n];
+            let want = refimpl::ss2022::tcp_eih(&keys, salt);
+            if first[n..n + eih_len] != want[..] {
+                let which = (0..keys.len() - 1).find(|i| first[n + 16 * i..n + 16 * i + 16] != want[16 * i..16 * i + 16]).unwrap_or(0);
+                findings.push(("identity-chain-stream".into(), format!("identity header {} of {} on the stream is not AES(identity-subkey(key {}), hash(key {})) as the key list spells it", which + 1, keys.len() - 1, which + 1, which + 2)));
+            }
+            let sub = refimpl::ss2022::session_subkey(keys.last().unwrap(), salt, n);
+            let aead = refimpl::ss2022::tcp_aead(&cipher).unwrap();
+            if aead.open(&sub, &[0u8; 12], &[], &first[n + eih_len..n + eih_len + 27]).is_err() {
+                findings.push(("body-key-stream".into(), "the fixed header does not open under the session key of the last key of the list".into()));
+            }
+        }
+        // datagram
+        let app = octo_squirrel::verif::net::UdpSocket::bind(SocketAddr::new(IpAddr::V4(Ipv4Addr::LOCALHOST), 0)).await.unwrap();
+        let t = scen_udp::UdpTarget { ip: [127, 0, 9, 9], port: 5353, name: None, replies: 0, reply_size: 0 };
+        let _ = app.send_to(&scen_udp::socks5_udp_wrap(&t, b"key-list-datagram"), SocketAddr::new(IpAddr::V4(Ipv4Addr::LOCALHOST), CLIENT_PORT)).await;
+        let mut buf = vec![0u8; 65536];
+        match tokio::time::timeout(Duration::from_secs(3), usock.recv_from(&mut buf)).await {
+            Ok(Ok((len, _))) => {
+                let pkt = &buf[..len];
+                match refimpl::ss2022::udp_open_aes(&cipher, &keys[0], &[keys.last().unwrap().clone()], keys.len() - 1, pkt, false) {
+                    Err(e) => findings.push(("body-key-datagram".into(), format!("the datagram does not open with header key = first key, body key = last key: {e}"))),
+                    Ok((body, _, _, _)) => {
+                        let want = refimpl::ss2022::udp_packet_aes(&cipher, &keys, &body);
+                        if want.len() < 16 + eih_len || pkt[16..16 + eih_len] != want[16..16 + eih_len] {
+                            findings.push(("identity-chain-datagram".into(), format!("the {} identity header(s) of the datagram are not the chain the key list spells", keys.len() - 1)));
+                        }
+                    }
+                }
+            }
+            _ => findings.push(("no-datagram".into(), "the client forwarded no datagram".into())),
+        }
+        (None, findings)
+    });
+    let (startup, findings) = out.result.clone();
+    let mut v = Vec::new();
+    if let Some(e) = startup {
+        v.push(Violation::new("C16", format!("C16/key-list-startup/{}", case.label), e));
+    }
+    for (oracle, detail) in &findings {
+        v.push(Violation::new("C16", format!("C16/key-list/{oracle}/{}", case.label), format!("{}: {detail}", case.label)));
+    }
+    for p in &out.panics {
+        v.push(Violation::new("C16", format!("C16/panic/key-list/{}", p.frame), format!("{}: panic in node {}: {} at {}", case.label, p.node, p.message, p.location)));
+    }
+    let mut probes = BTreeMap::new();
+    probes.insert("cases_key-list".to_owned(), 1);
+    let mut h = 0xcbf29ce484222325u64;
+    for b in case.label.bytes() {
+        h = (h ^ b as u64).wrapping_mul(0x100000001b3);
+    }
+    Outcome {
+        violations: v,
+        ev_hash: out.world.ev_hash,
+        ev_count: out.world.ev_count,
+        poll_hash: out.poll_hash,
+        polls: out.polls,
+        sim_ns: out.sim_ns,
+        stats: crate::report::world_stats(&out.world),
+        nontrivial: true,
+        case_hash: h,
+        probes,
+        panics: out.panics,
+        extra_evaluations: 0,
+        extra_cases: Vec::new(),
+    }
+}
+
 pub fn execute_c16(plan: &Plan) -> Outcome {
     let case: Case = serde_json::from_value(plan.extra["case"].clone()).expect("case");
+    if case.class == "key-list" {
+        return execute_key_list(plan, &case);
+    }
     let out = rt::run_sim(plan.seed, plan.net_seed, plan.knobs.to_knobs(), || async {
         world::with(|w| w.first_atomic_ports.push(SERVER_PORT));
         let server = start_server_json(case.server_json.clone());
